@@ -427,6 +427,10 @@ type C02Cfg struct {
 	hidden int
 	Ch     chan int
 	Skip   []int `dials:"-"`
+	// exported fields whose names start with a non-ASCII upper-case letter
+	Ünits map[string]int
+	Ärgs  []int
+	Ωmega *int
 }
 
 var errC02Rejected = errors.New("C02Cfg: the stack does not verify")
